@@ -787,3 +787,111 @@ Proof.
       apply (nodup_map_inj_on ek (applied ls) Hk); apply Hrows; assumption. }
   rewrite Hsel, Hscan, len_app. reflexivity.
 Qed.
+
+(** * Witnesses: known findings and non-vacuity *)
+
+Fixpoint nodupb (l : list N) : bool :=
+  match l with [] => true | x :: r => negb (memb x r) && nodupb r end.
+
+Lemma nodupb_sound l : nodupb l = true -> NoDup l.
+Proof.
+  induction l as [|x r IH]; cbn [nodupb]; intros H; [constructor|].
+  apply andb_true_iff in H as [Hx Hr]. apply negb_true_iff, memb_false in Hx. constructor; auto.
+Qed.
+
+(** all stage labels of one complete background flush writing the types [us] *)
+Definition flush_all (us : list N) : list label :=
+  [LFw FwBegin; LFw FwMkdir] ++ map (fun u => LFw (FwWrite u)) us
+  ++ [LFw FwIndex; LFw FwPublish; LFw FwClear; LFw FwWalClean; LFw FwDone].
+
+(** Known finding ReadDuringFlushDropsSegmentFlow: segment 0 (type 0) is complete
+    and published, segment 1 (type 1 only) has just begun its flush; a read for
+    type 0 may return the in-memory rows only, and event 0 is then missing. *)
+Definition ls_fragile : list label :=
+  [LStore (mkEv 0 0 0)] ++ flush_all [0] ++ [LStore (mkEv 1 0 1); LFw FwBegin].
+
+Lemma fragile_outcome_refuted :
+  exists c ls u e,
+    let s := run (init c) ls in
+    no_crash ls /\ NoDup (map ek (applied ls)) /\
+    ReadDuringFlushDropsSegmentFlow s u = true /\
+    In e (applied ls) /\ euid e = u /\
+    In (select_mem_only s u) (select_outcomes s u) /\ ~ In e (select_mem_only s u).
+Proof.
+  exists 1, ls_fragile, 0, (mkEv 0 0 0). cbv zeta.
+  split; [vm_compute; reflexivity|]. split; [apply nodupb_sound; vm_compute; reflexivity|].
+  split; [vm_compute; reflexivity|]. split; [vm_compute; auto|]. split; [reflexivity|].
+  split; [vm_compute; auto|]. vm_compute. intros [].
+Qed.
+
+(** Known findings of COUNT.  (a) CountIgnoresTypeInMemory: the memtable holds one
+    event of type 1, COUNT for type 0 reports 1.  (b) CountDuringFlush: between
+    FwPublish and FwClear the rotated event is in the passive copy and in the
+    published segment and is counted twice. *)
+Definition ls_count_a : list label := [LStore (mkEv 0 0 1)].
+Definition ls_count_b : list label :=
+  [LStore (mkEv 0 0 0); LFw FwBegin; LFw FwMkdir; LFw (FwWrite 0); LFw FwIndex; LFw FwPublish].
+
+Lemma count_refuted :
+  (exists c ls u, let s := run (init c) ls in
+     no_crash ls /\ NoDup (map ek (applied ls)) /\
+     CountIgnoresTypeInMemory s u = true /\ CountDuringFlush s = false /\
+     count s u <> len (select s u)) /\
+  (exists c ls u, let s := run (init c) ls in
+     no_crash ls /\ NoDup (map ek (applied ls)) /\
+     CountIgnoresTypeInMemory s u = false /\ CountDuringFlush s = true /\
+     jobs s = [mkJob 0 (applied ls) StPublished] /\
+     count s u = 2 /\ len (select s u) = 1).
+Proof.
+  split.
+  - exists 2, ls_count_a, 0. cbv zeta.
+    split; [vm_compute; reflexivity|]. split; [apply nodupb_sound; vm_compute; reflexivity|].
+    split; [vm_compute; reflexivity|]. split; [vm_compute; reflexivity|]. vm_compute. discriminate.
+  - exists 1, ls_count_b, 0. cbv zeta.
+    split; [vm_compute; reflexivity|]. split; [apply nodupb_sound; vm_compute; reflexivity|].
+    repeat split; vm_compute; reflexivity.
+Qed.
+
+(** Non-vacuity: a crash-free history with unique ids and three rotations
+    (capacity 2): segment 0 complete, segment 1 in flight with both of its types
+    written, segment 2 queued behind it, one event in the active memtable. *)
+Definition ls_ex : list label :=
+  [LStore (mkEv 0 1 0); LStore (mkEv 1 0 1)] ++ flush_all [1; 0]
+  ++ [LStore (mkEv 2 0 0); LWalWrite; LStore (mkEv 3 1 1); LFw FwBegin; LFw FwMkdir; LFw (FwWrite 0);
+      LStore (mkEv 4 0 0); LFlushCmd; LFw (FwWrite 1); LStore (mkEv 5 2 1)].
+
+Example select_exact_example :
+  let s := run (init 2) ls_ex in
+  no_crash ls_ex /\ NoDup (map ek (applied ls_ex)) /\
+  map jstage (jobs s) = [StBegun; StQueued] /\ live s = [0] /\ inflight s = [1] /\
+  select s 0 = [mkEv 2 0 0; mkEv 4 0 0; mkEv 0 1 0] /\
+  select s 1 = [mkEv 5 2 1; mkEv 3 1 1; mkEv 1 0 1].
+Proof.
+  cbv zeta. split; [vm_compute; reflexivity|]. split; [apply nodupb_sound; vm_compute; reflexivity|].
+  repeat split; vm_compute; reflexivity.
+Qed.
+
+Example outcomes_exact_example :
+  let s := run (init 2) ls_ex in
+  no_crash ls_ex /\ NoDup (map ek (applied ls_ex)) /\ inflight s = [1] /\
+  ReadDuringFlushDropsSegmentFlow s 0 = false /\ ReadDuringFlushDropsSegmentFlow s 1 = false.
+Proof.
+  cbv zeta. split; [vm_compute; reflexivity|]. split; [apply nodupb_sound; vm_compute; reflexivity|].
+  repeat split; vm_compute; reflexivity.
+Qed.
+
+(** three rotations (one of an empty memtable), every event of type 0: segment 0
+    complete and released, segments 1 and 2 queued, one event in the memtable *)
+Definition ls_ex_count : list label :=
+  [LStore (mkEv 0 1 0); LStore (mkEv 1 0 0)] ++ flush_all [0]
+  ++ [LStore (mkEv 2 0 0); LWalWrite; LStore (mkEv 3 1 0); LFlushCmd; LStore (mkEv 4 0 0)].
+
+Example count_exact_example :
+  let s := run (init 2) ls_ex_count in
+  no_crash ls_ex_count /\ NoDup (map ek (applied ls_ex_count)) /\
+  map jstage (jobs s) = [StQueued; StQueued] /\ live s = [0] /\
+  CountIgnoresTypeInMemory s 0 = false /\ CountDuringFlush s = false /\ count s 0 = 5.
+Proof.
+  cbv zeta. split; [vm_compute; reflexivity|]. split; [apply nodupb_sound; vm_compute; reflexivity|].
+  repeat split; vm_compute; reflexivity.
+Qed.
